@@ -40,7 +40,7 @@ theorem items_iff (p : List String) (it : Item) :
     it ∈ itemsOf (fileOf c g tree p).infos ↔ AttributedT c g tree p it :=
   C04.C04_items _ _ (fileInfo_src p _) it
 
-theorem mem_cpr_iff {infos : List Info} {x : String} :
+theorem mem_cprItems_iff {infos : List Info} {x : String} :
     x ∈ infos.flatMap (·.cpr) ↔ ∃ it ∈ itemsOf infos, it.kind = .cpr ∧ it.value = x := by
   simp only [List.mem_flatMap, mem_itemsOf]
   constructor
@@ -70,18 +70,18 @@ theorem hasCopyright_iff (hne : NoEmptyNotice c g tree) {p : List String} (hp : 
     ((fileOf c g tree p).toCov c).hasCopyright = true ↔ HasNotice c g tree p := by
   have hall : ∀ x ∈ (fileOf c g tree p).infos.flatMap (·.cpr), x ≠ "" := by
     intro x hx
-    obtain ⟨it, hit, hk, rfl⟩ := mem_cpr_iff.mp hx
+    obtain ⟨it, hit, hk, rfl⟩ := mem_cprItems_iff.mp hx
     exact hne p it hp ((items_iff p it).mp hit) hk
   simp only [EFile.toCov]
   rw [joinedNonEmpty_iff hall]
   constructor
   · intro hnil
     obtain ⟨x, hx⟩ := List.exists_mem_of_ne_nil _ hnil
-    obtain ⟨it, hit, hk, rfl⟩ := mem_cpr_iff.mp hx
+    obtain ⟨it, hit, hk, rfl⟩ := mem_cprItems_iff.mp hx
     exact ⟨it, (items_iff p it).mp hit, hk, hall _ hx⟩
   · rintro ⟨it, hit, hk, _⟩ hnil
     have : it.value ∈ (fileOf c g tree p).infos.flatMap (·.cpr) :=
-      mem_cpr_iff.mpr ⟨it, (items_iff p it).mpr hit, hk, rfl⟩
+      mem_cprItems_iff.mpr ⟨it, (items_iff p it).mpr hit, hk, rfl⟩
     rw [hnil] at this
     cases this
 
